@@ -255,3 +255,100 @@ func VerifH_C14_CopyToReleases() {
 	rt.Cover(rt.And(r.copyErr != nil, r.closed == 1), "failed-copy-released")
 	rt.Cover(err == nil, "copy-succeeded")
 }
+
+// ---- index alias: closed flag and lock balance ----
+
+// verifChild: a stub member index of an alias; every call may fail.
+type verifChild struct {
+	verifIndexIface
+	touched int
+	dicts   int
+}
+
+func (c *verifChild) fail(label string) error { c.touched++; return verifMaybeErr(label) }
+func (c *verifChild) Name() string            { return "child" }
+func (c *verifChild) Index(id string, data interface{}) error { return c.fail("child_fails") }
+func (c *verifChild) Delete(id string) error                  { return c.fail("child_fails") }
+func (c *verifChild) Batch(b *Batch) error                    { return c.fail("child_fails") }
+func (c *verifChild) Document(id string) (index.Document, error) {
+	return nil, c.fail("child_fails")
+}
+func (c *verifChild) DocCount() (uint64, error)  { return 1, c.fail("child_fails") }
+func (c *verifChild) Fields() ([]string, error)  { return nil, c.fail("child_fails") }
+func (c *verifChild) dict() (index.FieldDict, error) {
+	if err := c.fail("child_fails"); err != nil {
+		return nil, err
+	}
+	c.dicts++
+	return &verifFieldDict{}, nil
+}
+func (c *verifChild) FieldDict(field string) (index.FieldDict, error) { return c.dict() }
+func (c *verifChild) FieldDictRange(field string, s, e []byte) (index.FieldDict, error) {
+	return c.dict()
+}
+func (c *verifChild) FieldDictPrefix(field string, p []byte) (index.FieldDict, error) {
+	return c.dict()
+}
+func (c *verifChild) GetInternal(key []byte) ([]byte, error) { return nil, c.fail("child_fails") }
+func (c *verifChild) SetInternal(key, val []byte) error      { return c.fail("child_fails") }
+func (c *verifChild) DeleteInternal(key []byte) error        { return c.fail("child_fails") }
+
+// VerifH_C11_AliasLocks: 12 operations of an index alias with a symbolic open flag over zero, one or
+// two stub member indexes whose every call may fail: on every path the alias mutex is free again when
+// the call returns (a field dictionary keeps the read lock until it is closed - and gives it back
+// then), and a closed alias answers ErrorIndexClosed without touching its members; afterwards the
+// alias can still be modified (Swap takes the write lock).
+func VerifH_C11_AliasLocks() {
+	nchildren := rt.Choice("members", 3)
+	var members []Index
+	var kids []*verifChild
+	for k := 0; k < nchildren; k++ {
+		c := &verifChild{}
+		kids = append(kids, c)
+		members = append(members, c)
+	}
+	a := &indexAliasImpl{name: "alias", indexes: members, open: rt.Choice("open", 2) == 1}
+	wasOpen := a.open
+	var err error
+	var fd index.FieldDict
+	switch rt.Choice("op", 12) {
+	case 0:
+		err = a.Index("a", nil)
+	case 1:
+		err = a.Delete("a")
+	case 2:
+		err = a.Batch(nil)
+	case 3:
+		_, err = a.Document("a")
+	case 4:
+		_, err = a.DocCount()
+	case 5:
+		_, err = a.Fields()
+	case 6:
+		fd, err = a.FieldDict("f")
+	case 7:
+		fd, err = a.FieldDictRange("f", []byte("a"), []byte("b"))
+	case 8:
+		fd, err = a.FieldDictPrefix("f", []byte("a"))
+	case 9:
+		_, err = a.GetInternal([]byte("k"))
+	case 10:
+		err = a.SetInternal([]byte("k"), []byte("v"))
+	case 11:
+		err = a.DeleteInternal([]byte("k"))
+	}
+	if !wasOpen {
+		rt.Assert(err == ErrorIndexClosed, "a closed alias answers with the closed-index error")
+		for _, c := range kids {
+			rt.Assert(c.touched == 0, "a closed alias does not touch its members")
+		}
+	}
+	if fd != nil {
+		rt.Assert(err == nil, "a dictionary is returned without error")
+		rt.Assert(fd.Close() == nil, "closing the dictionary succeeds")
+	}
+	rt.Assert(rt.MutexFree(&a.mutex), "the alias mutex is free when the call has returned (and its dictionary is closed)")
+	a.Swap(nil, nil) // takes the write lock: would block for ever on a leaked read lock
+	rt.Cover(rt.And(wasOpen, nchildren == 1, err != nil, fd == nil), "member-call-failed")
+	rt.Cover(rt.And(wasOpen, fd != nil), "alias-dictionary-opened")
+}
